@@ -416,6 +416,116 @@ def main(ctx):
                for w in ("recfile.write", "Recfile.write") for layout in T.LAYOUTS[1:]]
     ctx.lattice("header-less", punits, one_plain, bounds=dict(tables=n1 + 2, rows=[1, 3]))
 
+    # ------------------------------------------- (d2) one file reached under several legal names
+    # (round 8: the row count of a header-less file taken from lstat of the NAME - the length of a link's text)
+    FORMS = ["plain", "symlink-abs", "symlink-rel", "symlink-chain", "hardlink", "dot-slash", "double-slash",
+             "dotdot", "envvar", "relative-cwd"]
+
+    def name_form(rec, fn, form):
+        """-> (name to hand to esutil, cleanup list, cwd to restore or None)"""
+        d0 = os.path.dirname(fn)
+        b = os.path.basename(fn)
+        made, cwd = [], None
+        if form == "plain":
+            return fn, made, cwd
+        if form == "symlink-abs":
+            ln = os.path.join(d0, "l")
+            os.symlink(fn, ln)
+            return ln, [ln], cwd
+        if form == "symlink-rel":
+            ln = os.path.join(d0, "r")
+            os.symlink(b, ln)
+            return ln, [ln], cwd
+        if form == "symlink-chain":
+            l1, l2 = os.path.join(d0, "k1"), os.path.join(d0, "k2")
+            os.symlink(b, l1)
+            os.symlink("k1", l2)
+            return l2, [l1, l2], cwd
+        if form == "hardlink":
+            ln = os.path.join(d0, "c01-hard.bin")
+            os.link(fn, ln)
+            return ln, [ln], cwd
+        if form == "dot-slash":
+            return os.path.join(d0, ".", b), made, cwd
+        if form == "double-slash":
+            return d0 + "//" + b, made, cwd
+        if form == "dotdot":
+            return os.path.join(d0, "..", os.path.basename(d0), b), made, cwd
+        if form == "envvar":
+            os.environ["C01_VERIF_DIR"] = d0
+            return "$C01_VERIF_DIR/" + b, made, cwd
+        if form == "relative-cwd":
+            cwd = os.getcwd()
+            os.chdir(d0)
+            return b, made, cwd
+        raise ValueError(form)
+
+    def one_form(case, rec):
+        descr, nrows, kind, form = case
+        want = T.make_table(descr, nrows, seed=ctx.seed + 2)
+        fn = os.path.join(rec.tmp, "c01-forms.bin")
+        for f in os.listdir(rec.tmp):
+            p = os.path.join(rec.tmp, f)
+            if os.path.islink(p) or f.startswith("c01-forms") or f.startswith("c01-hard"):
+                os.unlink(p)
+        if kind == "headerless":
+            recfile.write(fn, want)
+        else:
+            sfile.write(fn, want, header={"k": 1})
+        name, made, cwd = name_form(rec, fn, form)
+        calls = 1
+        try:
+            if kind == "headerless":
+                rds = {
+                    "recfile.read": lambda: recfile.read(name, want.dtype),
+                    "Recfile(count)": lambda: recfile.Recfile(name, dtype=want.dtype)[:],
+                    "Recfile.nrows": lambda: np.array([recfile.Recfile(name, dtype=want.dtype).nrows]),
+                    "io.read(dtype)": lambda: esutil.io.read(name, dtype=want.dtype, type="rec"),
+                }
+            else:
+                rds = {
+                    "sfile.read": lambda: sfile.read(name),
+                    "SFile[:]": lambda: sfile.SFile(name)[:],
+                    "io.read": lambda: esutil.io.read(name, type="rec"),
+                }
+            for rn, rf in rds.items():
+                try:
+                    out = rf()
+                except Exception as e:
+                    return rec.fail(case, "%s through a %s name raised %s: %s" % (rn, form, type(e).__name__, e))
+                calls += 1
+                if rn == "Recfile.nrows":
+                    if int(out[0]) != nrows:
+                        return rec.fail(case, "Recfile.nrows through a %s name is %d, the file holds %d rows" % (form, int(out[0]), nrows))
+                    continue
+                m = T.same_table(out, want)
+                if m:
+                    return rec.fail(case, "%s through a %s name: %s" % (rn, form, m))
+            # writing through the name reaches the same file
+            want2 = T.make_table(descr, nrows + 1, seed=ctx.seed + 3)
+            try:
+                if kind == "headerless":
+                    recfile.write(name, want2)
+                    back = recfile.read(fn, want2.dtype)
+                else:
+                    sfile.write(name, want2)
+                    back = sfile.read(fn)
+            except Exception as e:
+                return rec.fail(case, "write through a %s name raised %s: %s" % (form, type(e).__name__, e))
+            calls += 2
+            m = T.same_table(back, want2)
+            if m:
+                return rec.fail(case, "table written through a %s name, read under the plain name: %s" % (form, m))
+        finally:
+            if cwd:
+                os.chdir(cwd)
+            os.environ.pop("C01_VERIF_DIR", None)
+        rec.ok(case, outcome="%s-%s" % (kind, form), nontrivial=form != "plain", calls=calls)
+
+    FT = [[("a", "<i4")], [("a", ">i2"), ("x", "<f8", (2,)), ("s", "S3")], [("b", "u1")]]
+    funits = [(t, n, k, f) for t in FT for n in (1, 3, 200) for k in ("headerless", "sfile") for f in FORMS]
+    ctx.lattice("file-name-forms", funits, one_form, bounds=dict(forms=FORMS, rows=[1, 3, 200], tables=len(FT)))
+
     # ------------------------------------------- (e) histories on one handle
     HT = [("a", ">i4"), ("x", "<f8", (2,)), ("s", "S3"), ("h", "<i2")]
     OPS = ["read", "[:]", "[0]", "[-1]", "col a", "col x[1:]", "read(rows=[2,0])", "header"]
